@@ -114,6 +114,7 @@ pub open spec fn op_post(w: World, o: TOp) -> World {
 // ---- step lemmas: how each function moves the view (typed-key read-over-write) ----
 pub proof fn lemma_set_op_ledger(w: World, id: BytesN<32>, v: u32, id2: BytesN<32>)
     ensures
+        //@@ C08:lemma.set_op_ledger_view
         op_ledger(set_op_ledger(w, id, v), id2) == (if id2 == id { v } else { op_ledger(w, id2) }),
         cur_min_delay(set_op_ledger(w, id, v)) == cur_min_delay(w),
         set_op_ledger(w, id, v).ledger_seq == w.ledger_seq,
@@ -122,6 +123,7 @@ pub proof fn lemma_set_op_ledger(w: World, id: BytesN<32>, v: u32, id2: BytesN<3
 }
 pub proof fn lemma_cancel_view(w: World, id: BytesN<32>, id2: BytesN<32>)
     ensures
+        //@@ C08:lemma.cancel_view
         op_ledger(cancel_post(w, id), id2) == (if id2 == id { UNSET_LEDGER } else { op_ledger(w, id2) }),
         cur_min_delay(cancel_post(w, id)) == cur_min_delay(w),
         cancel_post(w, id).ledger_seq == w.ledger_seq,
@@ -146,6 +148,7 @@ pub proof fn lemma_set_min_delay_view(w: World, d: u32, id2: BytesN<32>)
 /// the view after any public operation, for every id
 pub proof fn lemma_op_view(w: World, o: TOp, id2: BytesN<32>)
     ensures
+        //@@ C08:lemma.op_view
         op_post(w, o).ledger_seq == w.ledger_seq,
         cur_min_delay(op_post(w, o)) == (match o { TOp::SetMinDelay { d } => Some(d), _ => cur_min_delay(w) }),
         op_ledger(op_post(w, o), id2) == (match o {
